@@ -756,6 +756,10 @@ def gen_parse_skeleton(repo, out, report):
         if is_id(x, 'on_parse') and i + 1 < len(items) and is_g(items[i + 1], '()'): return 'on_parse(..)'
         return None
     sk = []; skeleton(b.items, [], sk, ev)
+    # the arms of the custom-section dispatch `match s.name()` (an arm that consumes a section silently has no event above)
+    cm = find_match(b.items, lambda sc: text(sc).replace(' ', '') == 's.name()')
+    if cm is None: raise Refuse('Module::parse: the custom-section dispatch `match s.name()` was not found')
+    for pat, body in arms(cm): sk.append(('custom-section dispatch arm', text(pat).replace(' ', '')))
     def coq_list(l): return '[' + ';\n   '.join('("%s", "%s")' % (a.replace('"', "'").replace('(*', '( *'), c.replace('"', "'")) for a, c in l) + ']'
     o = ['(* GENERATED by /verif/translator/gen_more.py (G14): the skeleton of Module::parse -- do not edit *)',
          'From Coq Require Import List String. Import ListNotations. Open Scope string_scope.',
@@ -766,6 +770,36 @@ def gen_parse_skeleton(repo, out, report):
         if open(path).read() != content: open(path, 'w').write(content)
     except OSError: open(path, 'w').write(content)
     return {'steps': len(sk)}
+
+
+def gen_traversal_calls(repo, out, report):
+    """G15: the functions called inside the two traversal drivers of src/ir/traversals.rs (every `name(` that is not a method call, a macro or a
+    constructor pattern).  A driver that calls itself or the other driver recurses on the call stack; pinned by a theorem of C16."""
+    p, t = src_tree(repo, 'src/ir/traversals.rs')
+    res = []
+    def flat(items):
+        for x in items:
+            if isinstance(x, Group):
+                yield x
+                for y in flat(x.items): yield y
+            else: yield x
+    for fn in ('dfs_in_order', 'dfs_pre_order_mut'):
+        b = fn_body(t, fn)
+        if b is None: raise Refuse('traversals.rs: fn %s not found' % fn)
+        toks = list(flat(b.items)); calls = []
+        for i, x in enumerate(toks):
+            if isinstance(x, Tok) and x.k == 'id' and i + 1 < len(toks) and is_g(toks[i + 1], '()') and not (i > 0 and (is_p(toks[i - 1], '.') or is_p(toks[i - 1], '::'))) and x.s[0].islower() and not x.s.endswith('!') and x.s not in ('if', 'while', 'for', 'match', 'let', 'loop', 'return', 'in', 'mut', 'ref', 'as'):
+                if x.s not in calls: calls.append(x.s)
+        res.append((fn, calls))
+    o = ['(* GENERATED by /verif/translator/gen_more.py (G15): free functions called by the traversal drivers -- do not edit *)',
+         'From Coq Require Import List String. Import ListNotations. Open Scope string_scope.',
+         'Definition traversal_calls : list (string * list string) :=\n  [' + ';\n   '.join('("%s", [%s])' % (fn, '; '.join('"%s"' % c for c in calls)) for fn, calls in res) + '].']
+    content = '\n'.join(o) + '\n'
+    path = os.path.join(out, 'TraversalCalls.v')
+    try:
+        if open(path).read() != content: open(path, 'w').write(content)
+    except OSError: open(path, 'w').write(content)
+    return {fn: calls for fn, calls in res}
 
 
 def run(repo, out, report, g):
@@ -779,6 +813,7 @@ def run(repo, out, report, g):
         report['config_emit'] = gen_config_emit(repo, out, report)
         report['valtypes'] = gen_valtypes(repo, out, report)
         report['parse_skeleton'] = gen_parse_skeleton(repo, out, report)
+        report['traversal_calls'] = gen_traversal_calls(repo, out, report)
     except Refuse as e:
         import gen
         raise gen.Refuse(str(e))
